@@ -161,11 +161,14 @@ theorem drawLines_ok (m : TextMode) (maxW maxH : UInt16) (lines : List (List Cel
 
 theorem drawText_ok (m : TextMode) (c : Ctx) (lines : List (List Cell)) :
     ∃ s, drawText exact m c lines = .ok s ∧
-      s.w = (findContainerSize m.sizeStrict c lines).1 ∧ s.h = (findContainerSize m.sizeStrict c lines).2 ∧
+      s.w = evalSz c (findContainerSize m.sizeStrict c lines) 0 m.sz.1 ∧
+      s.h = evalSz c (findContainerSize m.sizeStrict c lines) 0 m.sz.2 ∧
       s.kids = .nil ∧ Sized s := by
   simp only [drawText]
-  have h0 := newSurface_sized (findContainerSize m.sizeStrict c lines).1 (findContainerSize m.sizeStrict c lines).2
-  have d0 := newSurface_dims exact (findContainerSize m.sizeStrict c lines).1 (findContainerSize m.sizeStrict c lines).2
+  have h0 := newSurface_sized (evalSz c (findContainerSize m.sizeStrict c lines) 0 m.sz.1)
+    (evalSz c (findContainerSize m.sizeStrict c lines) 0 m.sz.2)
+  have d0 := newSurface_dims exact (evalSz c (findContainerSize m.sizeStrict c lines) 0 m.sz.1)
+    (evalSz c (findContainerSize m.sizeStrict c lines) 0 m.sz.2)
   cases hf : m.fill with
   | none =>
     simp only []
